@@ -84,6 +84,11 @@ class YowNetworkLayer(YowLayer, ConnectionCallbacks):
         return True
 
     def createConnection(self):
+        if self.state in (self.__class__.STATE_CONNECTING, self.__class__.STATE_CONNECTED):
+            # a second dispatcher would orphan the first one: its connect/close callbacks would then be
+            # attributed to the wrong connection
+            logger.warn("Received connect request while already connected or connecting, ignoring")
+            return
         self._disconnect_reason = None
         self._dispatcher = self.__create_dispatcher(self.getProp(self.PROP_DISPATCHER, self.DISPATCHER_DEFAULT))
         self.state = self.__class__.STATE_CONNECTING
